@@ -238,3 +238,261 @@ Proof.
         rewrite (Hall s (or_introl eq_refl)). apply IH. intros; apply Hall; now right. }
       now rewrite Hnil.
 Qed.
+
+(* ------------------------------------------------------------------------------------------ *)
+(** * Bitfinex: messages are identified by the channel id of the confirmation *)
+
+Lemma nodup_map_inj : forall (A B : Type) (f : A -> B) (l : list A) x y,
+  NoDup (map f l) -> In x l -> In y l -> f x = f y -> x = y.
+Proof.
+  intros A B f l. induction l as [|a l IH]; intros x y Hn Hx Hy E; [contradiction|].
+  cbn in Hn. inversion Hn as [|? ? Hna Hn']; subst.
+  destruct Hx as [->|Hx], Hy as [->|Hy].
+  - reflexivity.
+  - exfalso. apply Hna. rewrite E. now apply in_map.
+  - exfalso. apply Hna. rewrite <- E. now apply in_map.
+  - now apply IH.
+Qed.
+
+Definition bfx_confs_ok (confs : list conf) : Prop :=
+  NoDup (map conf_cid confs) /\ NoDup (map conf_sid confs) /\
+  forall c, In c confs -> fst (fst c) = "trades".
+
+Lemma bitfinex_market_venue : forall d, market_of Bitfinex d = venue_symbol Bitfinex d.
+Proof. intros [b q k|n k]; [|reflexivity]. cbn. now rewrite !upper_lower. Qed.
+
+Lemma map_subs_no_dec : forall e sk subs n, map_subs e sk subs (dec n) = None.
+Proof.
+  intros e sk subs n. destruct (map_subs e sk subs (dec n)) as [k|] eqn:E; [|reflexivity].
+  apply map_subs_domain_bar in E. rewrite dec_no_bar in E. discriminate.
+Qed.
+
+Theorem oracle_accepts_model_bitfinex : forall sk subs confs m,
+  bfx_confs_ok confs ->
+  msg_prop Bitfinex sk subs confs m (transform Bitfinex sk (transformer_map Bitfinex sk subs confs) m) = true.
+Proof.
+  intros sk subs confs m (Hc & Hs & Htr).
+  destruct m as [chan sym cid items|v]; [|reflexivity].
+  unfold msg_prop, transform, transformer_map. cbn [msg_id family_of subs_for].
+  set (m0 := map_subs Bitfinex sk subs).
+  destruct (in_dec N.eq_dec cid (map conf_cid confs)) as [Hin|Hnin].
+  - (* the channel id was handed out: by exactly one confirmation *)
+    apply in_map_iff in Hin as (cf & Hcid & Hcf).
+    assert (Hval : bfx_validate m0 confs (dec cid) = m0 (conf_sid cf)).
+    { rewrite <- Hcid. apply bfx_validate_confirmed; try assumption. intros; apply map_subs_no_dec. }
+    rewrite Hval. destruct cf as [[ch sy] cid']. unfold conf_cid in Hcid. cbn [snd] in Hcid. subst cid'.
+    pose proof (Htr _ Hcf) as Hch. cbn [fst] in Hch. subst ch. unfold conf_sid. cbn [fst snd].
+    assert (Huniq : forall d, bfx_confirmed confs cid d = true -> venue_symbol Bitfinex d = sy).
+    { intros d H. unfold bfx_confirmed in H. apply existsb_exists in H as ([[ch' sy'] c'] & Hin' & H).
+      apply andb_true_iff in H as [H H3]. apply andb_true_iff in H as [H1 H2].
+      apply N.eqb_eq in H1. apply String.eqb_eq in H3. subst c'.
+      assert (E : (ch', sy', cid) = ("trades", sy, cid)) by (apply (nodup_map_inj _ _ conf_cid confs); auto).
+      injection E as _ ->. now symmetry. }
+    destruct (m0 (sub_id "trades" sy)) as [k|] eqn:Hk.
+    + destruct (lookup_hit Bitfinex sk subs "trades" sy k eq_refl Hk) as (s & Hins & Hkey & _ & Hmk).
+      rewrite bitfinex_market_venue in Hmk.
+      assert (Hconf : bfx_confirmed confs cid (snd s) = true).
+      { unfold bfx_confirmed. apply existsb_exists. exists ("trades", sy, cid). split; [assumption|].
+        now rewrite N.eqb_refl, Hmk, !String.eqb_refl. }
+      assert (Hnamed : only_named Bitfinex subs confs sym cid items
+                (OOut (map OEv (events Bitfinex sk k (MData chan sym cid items)))) = true).
+      { unfold only_named. apply forallb_forall. intros o Ho. apply in_map_iff in Ho as (ev & <- & Hev).
+        apply events_exch in Hev as [_ Hevk]. apply existsb_exists. exists s. split; [assumption|].
+        now rewrite Hkey, Hevk, N.eqb_refl, Hconf. }
+      rewrite Hnamed. cbn [andb].
+      assert (HinS : In s (filter (fun s0 => bfx_confirmed confs cid (snd s0)) subs)) by (apply filter_In; now split).
+      destruct (filter _ subs) as [|s0 ss] eqn:Hfl; [contradiction|].
+      cbn [events]. apply events_ok_model; [|now left].
+      unfold key_in, keys_of. apply existsb_exists. exists (fst s). split; [now apply in_map|].
+      rewrite Hkey. apply N.eqb_refl.
+    + assert (Hnil : filter (fun s0 => bfx_confirmed confs cid (snd s0)) subs = []).
+      { pose proof (lookup_miss _ _ _ _ _ Hk) as Hmiss.
+        assert (Hall : forall s, In s subs -> bfx_confirmed confs cid (snd s) = false).
+        { intros s Hins. destruct (bfx_confirmed confs cid (snd s)) eqn:E; [|reflexivity].
+          exfalso. apply (Hmiss s Hins). split; [reflexivity|]. rewrite bitfinex_market_venue. now apply Huniq. }
+        clear -Hall. induction subs as [|s subs IH]; cbn; [reflexivity|].
+        rewrite (Hall s (or_introl eq_refl)). apply IH. intros; apply Hall; now right. }
+      rewrite Hnil. reflexivity.
+  - (* a channel id nobody handed out *)
+    rewrite bfx_validate_unassigned by assumption. unfold m0. rewrite map_subs_no_dec.
+    assert (Hnil : filter (fun s0 => bfx_confirmed confs cid (snd s0)) subs = []).
+    { assert (Hall : forall d, bfx_confirmed confs cid d = false).
+      { intros d. destruct (bfx_confirmed confs cid d) eqn:E; [|reflexivity]. exfalso.
+        unfold bfx_confirmed in E. apply existsb_exists in E as ([[ch' sy'] c'] & Hin' & H).
+        apply andb_true_iff in H as [H _]. apply andb_true_iff in H as [H1 _]. apply N.eqb_eq in H1. subst c'.
+        apply Hnin. change cid with (conf_cid (ch', sy', cid)). now apply in_map. }
+      clear -Hall. induction subs as [|s subs IH]; cbn; [reflexivity|]. now rewrite Hall. }
+    rewrite Hnil. reflexivity.
+Qed.
+
+(* ------------------------------------------------------------------------------------------ *)
+(** * Case level: implementation = model implies the oracle holds *)
+
+Lemma list_eqb_eq : forall (A : Type) (eqb : A -> A -> bool),
+  (forall a b, eqb a b = true -> a = b) -> forall l1 l2, list_eqb eqb l1 l2 = true -> l1 = l2.
+Proof.
+  intros A eqb H. induction l1 as [|a l1 IH]; intros [|b l2] E; cbn in E; try discriminate; [reflexivity|].
+  apply andb_true_iff in E as [E1 E2]. f_equal; [now apply H|now apply IH].
+Qed.
+Lemma option_eqb_eq : forall (A : Type) (eqb : A -> A -> bool),
+  (forall a b, eqb a b = true -> a = b) -> forall x y, option_eqb eqb x y = true -> x = y.
+Proof. intros A eqb H [a|] [b|] E; cbn in E; try discriminate; [f_equal; now apply H|reflexivity]. Qed.
+Lemma side_eqb_eq : forall a b, side_eqb a b = true -> a = b.
+Proof. intros [] [] E; try discriminate; reflexivity. Qed.
+Lemma exch_eqb_eq : forall a b, exch_eqb a b = true -> a = b.
+Proof. intros [] [] E; try discriminate; reflexivity. Qed.
+Lemma optZ_eqb_eq : forall a b, optZ_eqb a b = true -> a = b.
+Proof. apply option_eqb_eq. intros a b. apply Z.eqb_eq. Qed.
+Lemma level_eqb_eq : forall a b, level_eqb a b = true -> a = b.
+Proof.
+  apply option_eqb_eq. intros [p a] [q b] E. unfold pair_eqb in E. cbn in E.
+  apply andb_true_iff in E as [E1 E2]. apply Z.eqb_eq in E1, E2. now subst.
+Qed.
+Lemma body_eqb_eq : forall a b, body_eqb a b = true -> a = b.
+Proof.
+  intros [i p q s|t b1 a1|s p q t] [i' p' q' s'|t' b2 a2|s' p' q' t'] E; cbn in E; try discriminate.
+  - repeat (apply andb_true_iff in E as [E ?]). apply String.eqb_eq in E.
+    repeat match goal with H : Z.eqb _ _ = true |- _ => apply Z.eqb_eq in H end.
+    match goal with H : side_eqb _ _ = true |- _ => apply side_eqb_eq in H end. now subst.
+  - repeat (apply andb_true_iff in E as [E ?]). apply optZ_eqb_eq in E.
+    repeat match goal with H : level_eqb _ _ = true |- _ => apply level_eqb_eq in H end. now subst.
+  - repeat (apply andb_true_iff in E as [E ?]). apply side_eqb_eq in E.
+    repeat match goal with H : Z.eqb _ _ = true |- _ => apply Z.eqb_eq in H end.
+    match goal with H : optZ_eqb _ _ = true |- _ => apply optZ_eqb_eq in H end. now subst.
+Qed.
+Lemma event_eqb_eq : forall a b, event_eqb a b = true -> a = b.
+Proof.
+  intros [k e t b] [k' e' t' b'] E. unfold event_eqb in E. cbn in E.
+  repeat (apply andb_true_iff in E as [E ?]). apply N.eqb_eq in E.
+  match goal with H : exch_eqb _ _ = true |- _ => apply exch_eqb_eq in H end.
+  match goal with H : optZ_eqb _ _ = true |- _ => apply optZ_eqb_eq in H end.
+  match goal with H : body_eqb _ _ = true |- _ => apply body_eqb_eq in H end. now subst.
+Qed.
+Lemma oitem_eqb_eq : forall a b, oitem_eqb a b = true -> a = b.
+Proof.
+  intros [x|x|x] [y|y|y] E; cbn in E; try discriminate;
+  [apply event_eqb_eq in E|apply String.eqb_eq in E|apply String.eqb_eq in E]; now subst.
+Qed.
+Lemma outcome_eqb_eq : forall a b, outcome_eqb a b = true -> a = b.
+Proof.
+  intros [|x|] [|y|] E; cbn in E; try discriminate; try reflexivity.
+  f_equal. now apply (list_eqb_eq _ _ oitem_eqb_eq).
+Qed.
+
+Lemma nodup_b_NoDup : forall (A : Type) (eqb : A -> A -> bool),
+  (forall a b, a = b -> eqb a b = true) -> forall l, nodup_b eqb l = true -> NoDup l.
+Proof.
+  intros A eqb H. induction l as [|x l IH]; intros E; [constructor|].
+  cbn in E. apply andb_true_iff in E as [E1 E2]. constructor; [|now apply IH].
+  intros Hin. apply negb_true_iff in E1. assert (existsb (eqb x) l = true); [|congruence].
+  apply existsb_exists. exists x. split; [assumption|now apply H].
+Qed.
+
+Theorem oracle_sound : forall c, in_domain c = true -> corr_b c = true -> prop_b c = true.
+Proof.
+  intros [e sk subs confs omap msgs] Hd Hc. unfold in_domain in Hd. cbn [c_exch c_sk c_subs c_confs c_msgs] in Hd.
+  apply andb_true_iff in Hd as [Hd Hconfs]. apply andb_true_iff in Hd as [Hd Hplain].
+  apply andb_true_iff in Hd as [Hwf Hstr].
+  unfold wf_case in Hwf. cbn [c_exch c_sk c_subs c_msgs] in Hwf.
+  apply andb_true_iff in Hwf as [Hwf Hmok]. apply andb_true_iff in Hwf as [Hsup _].
+  unfold corr_b in Hc. cbn [c_exch c_sk c_subs c_confs c_msgs c_map] in Hc. apply andb_true_iff in Hc as [_ Hc].
+  assert (Hp : strikes_plain subs).
+  { intros s Hin. rewrite forallb_forall in Hstr. specialize (Hstr s Hin).
+    unfold strike_plain. unfold strike_plain_b in Hstr. destruct (kind_of (snd s)); try exact I.
+    now apply String.eqb_eq in Hstr. }
+  assert (Hfam : family_of e <> FNone) by (destruct e; try discriminate; destruct sk; discriminate Hsup).
+  unfold prop_b. cbn [c_exch c_sk c_subs c_confs c_msgs]. apply andb_true_iff. split.
+  - destruct e; try reflexivity. unfold confs_ok_b in Hconfs. now apply andb_true_iff in Hconfs as [_ Hr].
+  - apply forallb_forall. intros [m o] Hin.
+    rewrite forallb_forall in Hc. specialize (Hc _ Hin). cbn [fst snd] in Hc |- *.
+    apply outcome_eqb_eq in Hc. subst o.
+    rewrite forallb_forall in Hmok. specialize (Hmok _ Hin). cbn [fst] in Hmok.
+    rewrite forallb_forall in Hplain. specialize (Hplain _ Hin). cbn [fst] in Hplain.
+    destruct (exch_eqb e Bitfinex) eqn:Eb.
+    + apply exch_eqb_eq in Eb. subst e. apply oracle_accepts_model_bitfinex.
+      unfold confs_ok_b in Hconfs.
+      apply andb_true_iff in Hconfs as [Hconfs _]. apply andb_true_iff in Hconfs as [Hconfs Htr].
+      apply andb_true_iff in Hconfs as [Hn1 Hn2].
+      split; [|split].
+      * apply (nodup_b_NoDup _ N.eqb); [intros a b ->; apply N.eqb_refl|exact Hn1].
+      * apply (nodup_b_NoDup _ String.eqb); [intros a b ->; apply String.eqb_refl|exact Hn2].
+      * intros cf Hcf. rewrite forallb_forall in Htr. now apply String.eqb_eq, Htr.
+    + assert (Hne : e <> Bitfinex) by (intros ->; discriminate Eb).
+      apply oracle_accepts_model; try assumption.
+      * destruct m as [chan sym cid items|v]; [|exact I]. cbn in Hplain |- *.
+        apply andb_true_iff in Hplain as [Hb _]. now apply negb_true_iff in Hb.
+      * destruct m as [chan sym cid items|v]; [|exact I]. cbn in Hplain |- *. intros F.
+        apply andb_true_iff in Hplain as [_ Hb]. rewrite F in Hb. now apply negb_true_iff in Hb.
+Qed.
+
+(* ------------------------------------------------------------------------------------------ *)
+(** * The dynamic builder's validation *)
+
+Lemma supports_triple_spec : forall e k sk,
+  supports_triple e k sk = (routed_pair e sk && venue_serves e k)%bool.
+Proof. intros e k sk. destruct e, k, sk; reflexivity. Qed.
+
+Lemma venue_serves_supports_kind : forall e k, venue_serves e k = true -> supports_kind e k = true.
+Proof. intros e k. destruct e, k; cbn; intros H; try reflexivity; discriminate H. Qed.
+
+Lemma dedup_ids_in : forall l x, In x (dedup_ids l) <-> In x l.
+Proof.
+  induction l as [|a l IH]; intros x; cbn; [tauto|]. rewrite filter_In, IH. split.
+  - intros [->|[H _]]; auto.
+  - intros [->|H]; [now left|]. destruct (N.eqb a x) eqn:E; [apply N.eqb_eq in E; now left|right; split; [assumption|reflexivity]].
+Qed.
+Lemma dedup_ids_nodup : forall l, NoDup (dedup_ids l).
+Proof.
+  induction l as [|a l IH]; cbn; constructor.
+  - intros H. apply filter_In in H as [_ H]. now rewrite N.eqb_refl in H.
+  - now apply NoDup_filter.
+Qed.
+
+Lemma NoDup_nodup_b : forall l : list N, NoDup l -> nodup_b N.eqb l = true.
+Proof.
+  induction l as [|x l IH]; intros H; [reflexivity|]. inversion H as [|? ? Hx Hl]; subst. cbn.
+  rewrite IH by assumption. rewrite andb_true_r. apply negb_true_iff.
+  destruct (existsb (N.eqb x) l) eqn:E; [|reflexivity]. exfalso. apply Hx.
+  apply existsb_exists in E as (y & Hy & Exy). apply N.eqb_eq in Exy. now subst.
+Qed.
+
+Lemma forallb_existsb_incl : forall a b : list N,
+  forallb (fun x => existsb (N.eqb x) b) a = true -> incl a b.
+Proof.
+  intros a b H x Hx. rewrite forallb_forall in H. specialize (H x Hx).
+  apply existsb_exists in H as (y & Hy & E). apply N.eqb_eq in E. now subst.
+Qed.
+Lemma incl_forallb_existsb : forall a b : list N,
+  incl a b -> forallb (fun x => existsb (N.eqb x) b) a = true.
+Proof.
+  intros a b H. apply forallb_forall. intros x Hx. apply existsb_exists. exists x. split; [now apply H|apply N.eqb_refl].
+Qed.
+
+Theorem support_oracle_sound :
+  (forall t, triple_corr t = true -> triple_prop t = true) /\
+  (forall b, batch_corr b = true -> batch_prop b = true).
+Proof.
+  split.
+  - intros [[[[e k] sk] o3] o2] H. unfold triple_corr in H. unfold triple_prop.
+    apply andb_true_iff in H as [H3 H2]. rewrite <- supports_triple_spec, H3. cbn [andb].
+    destruct o2; try reflexivity.
+    + destruct (venue_serves e k) eqn:V; [|reflexivity].
+      rewrite (venue_serves_supports_kind _ _ V) in H2. discriminate H2.
+    + destruct (supports_kind e k); discriminate H2.
+  - intros [l r] H. unfold batch_corr in H. unfold batch_prop. cbn [fst snd] in *.
+    unfold validate_batch in H.
+    assert (Hok : forallb (fun s : dsub => let '(_, e, k, sk) := s in (routed_pair e sk && venue_serves e k)%bool) l
+                  = forallb (fun s : dsub => let '(_, e, k, sk) := s in supports_triple e k sk) l).
+    { clear. induction l as [|[[[i e] k] sk] l IH]; cbn; [reflexivity|]. now rewrite IH, supports_triple_spec. }
+    rewrite Hok. destruct (forallb _ l); destruct r as [obs sorted| |]; try discriminate H; try reflexivity.
+    apply andb_true_iff in H as [Hs ->]. unfold same_ids in Hs.
+    apply andb_true_iff in Hs as [Hs H2]. apply andb_true_iff in Hs as [Hlen H1].
+    apply Nat.eqb_eq in Hlen.
+    set (ids := map (fun s : dsub => fst (fst (fst s))) l) in *.
+    pose proof (forallb_existsb_incl _ _ H1) as I1. pose proof (forallb_existsb_incl _ _ H2) as I2.
+    assert (Hnd : NoDup obs).
+    { apply (NoDup_incl_NoDup (dedup_ids_nodup ids)); [rewrite Hlen; apply le_n|exact I1]. }
+    cbn [andb]. rewrite (NoDup_nodup_b _ Hnd). cbn [andb]. apply andb_true_iff. split.
+    + apply incl_forallb_existsb. intros x Hx. apply dedup_ids_in. now apply I2.
+    + apply incl_forallb_existsb. intros x Hx. apply I1. now apply dedup_ids_in.
+Qed.
